@@ -431,4 +431,133 @@ theorem parseTPS_noPanic (basis : Array W) (tpn : Bytes) : NoPanic (parseTPS bas
   · exact noPanic_illegal _
 
 end TPS
+/-- the result is not a `hang` outcome (fuel of an unbounded Go loop exhausted) -/
+def NoHang {α : Type} (r : R α) : Prop := ∀ site, r ≠ .error (.hang site)
+
+theorem noHang_ok {α : Type} (x : α) : NoHang (.ok x : R α) := by intro s h; cases h
+theorem noHang_illegal {α : Type} (w : String) : NoHang (.error (.illegal w) : R α) := by intro s h; cases h
+theorem noHang_panic {α : Type} (w : String) : NoHang (.error (.panic w) : R α) := by intro s h; cases h
+
+theorem fromSquares_pieces_noHang (i j : Nat) (l : List Nat) (p : Pos) :
+    NoHang (Pos.fromSquares.go.pieces i j l p) := by
+  induction l generalizing j p with
+  | nil => unfold Pos.fromSquares.go.pieces; exact noHang_ok _
+  | cons pc l ih =>
+    unfold Pos.fromSquares.go.pieces
+    simp only []
+    split
+    · exact noHang_illegal _
+    · exact ih _ _
+
+theorem fromSquares_go_noHang (basis : Array W) (n i : Nat) (rest : List (List Nat)) (p : Pos) :
+    NoHang (Pos.fromSquares.go basis n i rest p) := by
+  induction rest generalizing i p with
+  | nil => unfold Pos.fromSquares.go; exact noHang_ok _
+  | cons sq rest ih =>
+    unfold Pos.fromSquares.go
+    split
+    · exact noHang_ok _
+    · split
+      · exact ih _ _
+      · simp only []
+        split
+        · rename_i e he; intro site hc; cases hc; exact fromSquares_pieces_noHang _ _ _ _ site he
+        · exact ih _ _
+
+theorem fromSquares_noHang (basis : Array W) (cfg : Cfg) (board : List (List Nat)) (move : Int)
+    (hA : ∀ p : Pos, p.analyze ≠ none) : NoHang (Pos.fromSquares basis cfg board move) := by
+  unfold Pos.fromSquares
+  cases hn : Pos.new cfg with
+  | error e =>
+    intro site hc
+    change (Except.error e : R Pos) = _ at hc
+    cases hc
+    unfold Pos.new at hn
+    repeat (first | (split at hn) | cases hn)
+  | ok p0 =>
+    change NoHang (if board.length < cfg.size * cfg.size then _ else _)
+    split
+    · exact noHang_panic _
+    · cases hg : Pos.fromSquares.go basis (cfg.size * cfg.size) 0 board { p0 with move := move } with
+      | error e =>
+        intro site hc
+        change (Except.error e : R Pos) = _ at hc
+        cases hc
+        exact fromSquares_go_noHang _ _ _ _ _ site hg
+      | ok p =>
+        change NoHang (match p.analyze with | some p => Except.ok p | none => Except.error (Err.hang "analyze"))
+        cases ha : p.analyze with
+        | none => exact absurd ha (hA p)
+        | some q => exact noHang_ok _
+
+namespace TPS
+
+theorem stackLoop_noHang (n i : Nat) (rest : Bytes) (stack : List Nat) : NoHang (stackLoop n i rest stack) := by
+  induction rest generalizing i stack with
+  | nil => unfold stackLoop; exact noHang_ok _
+  | cons b rest ih =>
+    unfold stackLoop
+    split
+    · simp only []
+      split
+      · exact ih _ _
+      · exact noHang_panic _
+    · split
+      · split
+        · exact noHang_illegal _
+        · split
+          · exact noHang_panic _
+          · split
+            · exact noHang_illegal _
+            · exact ih _ _
+      · exact noHang_illegal _
+
+theorem parseBits_noHang (bits : List Bytes) (out : List (List Nat)) : NoHang (parseBits bits out) := by
+  induction bits generalizing out with
+  | nil => exact noHang_ok _
+  | cons bit bits ih =>
+    simp only [parseBits]
+    split
+    · rename_i e he
+      intro site hc; cases hc
+      unfold parseBit at he
+      split at he
+      · cases he
+      · split at he
+        · cases he
+        · split at he
+          · rename_i e' he'; cases he; exact stackLoop_noHang _ _ _ _ site he'
+          · cases he
+    · exact ih _
+
+theorem parseRows_noHang (rs : List Bytes) (pieces : List (List (List Nat))) : NoHang (parseRows rs pieces) := by
+  induction rs generalizing pieces with
+  | nil => exact noHang_ok _
+  | cons r rs ih =>
+    simp only [parseRows]
+    split
+    · rename_i e he; intro site hc; cases hc; exact parseBits_noHang _ _ site he
+    · exact ih _
+
+theorem parseTPS_noHang (basis : Array W) (tpn : Bytes) (hA : ∀ p : Pos, p.analyze ≠ none) :
+    NoHang (parseTPS basis tpn) := by
+  unfold parseTPS
+  split
+  · split
+    · exact noHang_illegal _
+    · split
+      · exact noHang_illegal _
+      · split
+        · exact noHang_illegal _
+        · simp only []
+          split
+          · rename_i e he; intro site hc; cases hc; exact parseRows_noHang _ _ site he
+          · split
+            · exact noHang_illegal _
+            · split
+              · exact noHang_illegal _
+              · exact fromSquares_noHang _ _ _ _ hA
+  · exact noHang_illegal _
+
+end TPS
 end Tak
